@@ -871,6 +871,11 @@ def norm(t):
                     return ('adt', 'core::result::Result', 'Err', (('0', ('conv', e)),))
                 if c.startswith('<core::option::Option'):
                     return ('adt', 'core::option::Option', 'None', ())
+            # the residual written out (a `?` desugared at a merge point): Break(Err(e)) / Break(None)
+            if r[0] == 'adt' and r[1] == 'core::result::Result' and r[2] == 'Err' and c.startswith('<core::result::Result'):
+                return ('adt', 'core::result::Result', 'Err', (('0', ('conv', dict(r[3]).get('0'))),))
+            if r[0] == 'adt' and r[1] == 'core::option::Option' and r[2] == 'None' and c.startswith('<core::option::Option'):
+                return ('adt', 'core::option::Option', 'None', ())
         if any(c.endswith(sfx) for sfx in TRANSPARENT_SUFFIX) and len(t[2]) == 1:
             return ('autoderef', t[2][0])
     if k == 'payload' and t[1][0] == 'phi':
